@@ -7,6 +7,8 @@
   D4 R-WHO   process-wide registries are written only on the init / registration
              path, never from the compile or run path
   D5 R-ATOM  a location read outside a mutex and written inside it is atomic
+  D7 R-WHO   the wrappers orcc generates declare no mutable function-static object besides the once control
+             (the executor and everything a call works on is per call)
   D6 R-LOCK  orc_init runs every initialiser with the global mutex held and publishes its
              once flag only after they have finished
 """
@@ -236,6 +238,10 @@ def run(ctx):
             # allocator state is lock-protected (D1)
             if kind == "global" and key in PROTECTED_GLOBALS:
                 continue
+            # any other process-wide variable written only with the global mutex held (here, or by every caller) is protected too
+            if LockState(f, "global").held_at(n) is True or requires_lock(db, f, "global"):
+                rep.ok("D4-WHO-MAY-WRITE", where(f), "%s" % (key if kind == "global" else "%s.%s" % key), "written with the global mutex held")
+                continue
             if once_guarded:
                 rep.ok("D4-WHO-MAY-WRITE", where(f), "%s" % (key if kind == "global" else "%s.%s" % key), "written only under a function-static once flag first run from orc_init")
                 continue
@@ -334,6 +340,39 @@ def run(ctx):
                       "orc_init sets `%s` before %s has run and a concurrent caller can observe it (flag read without the mutex, or mutex dropped "
                       "before the initialisers finish): that caller returns from orc_init into an uninitialised library" % (fl, ", ".join(sorted({c.name for c in later}))[:120]),
                       line=st.line)
+
+    # ---- D7: generated wrappers keep no per-call state in static storage ---------------------------
+    # The wrappers orcc writes are called concurrently by applications.  Everything a call works on (the executor with
+    # its arrays, parameters and loop counters) has to live in the caller's frame; the only function-static objects
+    # a wrapper may declare are immutable tables and the once control that guards the shared, read-only code pointer.
+    import re as _re
+    otu = db.tu("orcc")
+    emit = [otu.fn.get(nm) for nm in ("output_code_execute", "output_program_generation", "output_init_function")]
+    emit = [f for f in emit if f is not None]
+    if not emit or otu.fn.get("output_code_execute") is None:
+        raise AnalysisBroken("tools/orcc.c: output_code_execute not found")
+    nst = 0
+    nex = 0
+    for f in emit:
+        rep.saw(f)
+        for c in f.calls("fprintf"):
+            a = c.args()
+            lit = strip_casts(a[1]) if len(a) > 1 else None
+            txt = lit.get("str", "") if lit is not None and lit.k == "StringLiteral" else ""
+            if _re.search(r"\bOrcExecutor\b[^;]*;", txt):
+                nex += 1
+            m = _re.match(r"^\s+static\s+(.*)$", txt)          # indented: a declaration inside the generated function body
+            if not m:
+                continue
+            nst += 1
+            decl = m.group(1)
+            ok = decl.startswith("const ") or _re.match(r"OrcOnce\b", decl) is not None
+            rep.check(ok, "D7-WRAPPER-STATE", where(f), "static %s" % decl.split("=")[0].strip()[:40],
+                      "function-static object in a generated wrapper is immutable or the once control",
+                      "orcc emits `static %s` inside a generated wrapper: the object is shared by every thread that calls the wrapper "
+                      "(an executor, its arrays, parameters and loop counters must be per call)" % decl.strip()[:60], line=c.line)
+    if nst < 2 or nex < 1:
+        raise AnalysisBroken("orcc wrapper emitter: %d block-scope static declarations, %d executor declarations found" % (nst, nex))
 
 
 def _only_via_once_guard(cg, f, reach_init, depth=0):
